@@ -552,6 +552,67 @@ pub fn run<F: Family>(tier: Tier, seed: u64) -> i32 {
         walk_bytes.fetch_add(done, Ordering::Relaxed);
     });
     report.count("long_stream_walk_bytes", walk_bytes.load(Ordering::Relaxed));
+    // thorough: ONE call of 2^32 + 5 bytes per direction (position arithmetic done once per call in a narrow type)
+    if tier == Tier::Thorough {
+        let key = &keys[2];
+        let rk = F::ref_key(key);
+        for enc_dir in [true, false] {
+            let total: usize = (1usize << 32) + 5;
+            let mut buf = vec![0x5Au8; total];
+            let (mut e, mut d) = F::make(key);
+            // warm up by 7 bytes so that the call does not start at position 0
+            let mut rm = refmodel::cipher::Recurrence { key: rk.clone(), n: 0, prev: 0 };
+            let mut warm = [1u8, 2, 3, 4, 5, 6, 7];
+            let mut warm2 = warm;
+            if enc_dir {
+                F::enc(&mut e, &mut warm);
+                rm.enc(&mut warm2);
+            } else {
+                F::dec(&mut d, &mut warm);
+                rm.dec(&mut warm2);
+            }
+            let r = if enc_dir { mc::util::catch(|| F::enc(&mut e, &mut buf)) } else { mc::util::catch(|| F::dec(&mut d, &mut buf)) };
+            if let Err(m) = r {
+                viol::<F>(&report, "single-huge-call", "panic", key, json!({"len": total, "encrypt": enc_dir}), format!("a single call of 2^32+5 bytes panicked: {m}"));
+                continue;
+            }
+            // reference for the call in pieces (the reference keeps its position reduced)
+            let mut ok = true;
+            let mut off = 0usize;
+            let mut piece = vec![0x5Au8; 1 << 24];
+            while off < total && ok {
+                let l = piece.len().min(total - off);
+                for b in piece[..l].iter_mut() {
+                    *b = 0x5A;
+                }
+                if enc_dir {
+                    rm.enc(&mut piece[..l]);
+                } else {
+                    rm.dec(&mut piece[..l]);
+                }
+                rm.n %= rk.len();
+                if buf[off..off + l] != piece[..l] {
+                    ok = false;
+                }
+                off += l;
+            }
+            // and the 64 bytes AFTER the huge call
+            let mut after = [0x33u8; 64];
+            let mut after_r = [0x33u8; 64];
+            if enc_dir {
+                F::enc(&mut e, &mut after);
+                rm.enc(&mut after_r);
+            } else {
+                F::dec(&mut d, &mut after);
+                rm.dec(&mut after_r);
+            }
+            if !ok || after != after_r {
+                viol::<F>(&report, "single-huge-call", "recurrence", key, json!({"len": total, "encrypt": enc_dir}), format!("a single call of 2^32+5 bytes (content correct: {ok}) leaves the cipher out of step afterwards: {}", after != after_r));
+            }
+            report.count("single_huge_call_bytes", total as u64);
+        }
+        report.space("one single call of 2^32+5 bytes per direction, then 64 more bytes, against the reference");
+    }
     report.space(&format!("long-stream walk of {walk_total} bytes per direction for {} key(s) with call sizes {{1,6,40,255,4096,65536,65537,1048576}}", walk_keys.len()));
     let pairs: u64 = pair_seen.iter().map(|r| r.iter().filter(|b| b.load(Ordering::Relaxed)).count() as u64).sum();
     report.count("position_keybyte_pairs_covered", pairs);
